@@ -278,7 +278,7 @@ def forwarders_C07(rep, seed, tier, cfg):
     except C.BuildError as e:
         rep.broke(dict(correspondence='mdarray op server build (%s)' % cfg, why=str(e), log=e.log[-2000:])); return
     rnd = random.Random(seed); lines = []
-    for inst in A12.G.instances():
+    for inst in A12.G.instances() + A12.G.fw_instances():
         kind, sp, t, pat, ck = inst
         es = [p if p is not None else rnd.choice([0, 1, 2, 3]) for p in pat]
         ss = F.chain_strides(rnd, es, (1, 1, 2)) if kind == 'stride' else None
